@@ -1,4 +1,4 @@
-import Proofs.Lemmas.History
+import Proofs.Lemmas.Spatial
 import Proofs.Audit
 
 /-!
@@ -181,6 +181,51 @@ theorem C04_interval_distance_values (dist : Pos → Pos → α) (hsym : ∀ a b
   refine ⟨x, hx, y, hy, h1, h2, px, py, h3, h4, a1, a2, a3, ?_, rfl⟩
   rw [abs_lt]; exact ⟨by have := h6.2; omega, h6.1⟩
 
+/-- **C04_spatial_only_spec** — `collocate(primary, secondary, max_distance=r)` with
+`max_interval=None` (spatial search only; `start`/`end` unused, nothing sorted): never
+raises, keeps the object invariant, and reports exactly the id pairs of points with valid
+positions at most `r` km apart — each once, `None` iff there is none — with `⌊|Δt|⌋`
+seconds and the distance of that pair; for **every** object state satisfying `Inv`. -/
+theorem C04_spatial_only_spec (dist : Pos → Pos → α) (hsym : ∀ a b, dist a b = dist b a)
+    (T : TreeFn Pos α) (hT : TreeOK dist T) (shuf : Nat → List Pos → List Nat)
+    (hshuf : ValidShuf shuf) (tn : Tuning) (st : SState Pos) (hinv : Inv st)
+    (p s : List (Line Pos)) (r : α) :
+    ∃ st' out, collocateSpatial T shuf tn st p s r = (st', .ok out) ∧ Inv st' ∧
+      (∀ i j iv d, ((i, j), iv, d) ∈ outPairs out ↔ CollocatedSp dist r p s i j iv d) ∧
+      (out = none ↔ ∀ i j iv d, ¬ CollocatedSp dist r p s i j iv d) ∧
+      (((flatten p).map (·.id)).Nodup → ((flatten s).map (·.id)).Nodup →
+        ((outPairs out).map (·.1)).Nodup) :=
+  collocateSpatial_spec dist hsym T hT shuf hshuf tn st hinv p s r
+
+/-- **C04_inv_preserved** — both kinds of calls (with and without `max_interval`) keep
+the object invariant, whatever they are given and whether they return, return `None` or
+raise; hence `Inv` holds after any mixed history on a fresh Collocator. -/
+theorem C04_inv_preserved (T : TreeFn Pos α) (shuf : Nat → List Pos → List Nat)
+    (hshuf : ValidShuf shuf) (tn : Tuning) (st : SState Pos) (hinv : Inv st)
+    (p s : List (Line Pos)) (mi : Int) (r : α) (start stop : Option Int) :
+    Inv (collocate T shuf tn st p s mi r start stop).1 ∧ Inv (collocateSpatial T shuf tn st p s r).1 :=
+  ⟨collocate_inv T shuf hshuf tn st hinv p s mi r start stop,
+   collocateSpatial_inv T shuf hshuf tn st hinv p s r⟩
+
+/-- **C04_spatial_state_independent** — the spatial-only answer is the same for any two
+object states satisfying `Inv` (a reused Collocator — e.g. one whose cached index was
+built from other, or since corrected, positions — answers like a fresh one, because the
+cache is used only when the coordinates are equal), any two trees, permutations, tunings. -/
+theorem C04_spatial_state_independent (dist : Pos → Pos → α) (hsym : ∀ a b, dist a b = dist b a)
+    (T T' : TreeFn Pos α) (hT : TreeOK dist T) (hT' : TreeOK dist T')
+    (shuf shuf' : Nat → List Pos → List Nat) (hshuf : ValidShuf shuf) (hshuf' : ValidShuf shuf')
+    (tn tn' : Tuning) (st st' : SState Pos) (hinv : Inv st) (hinv' : Inv st')
+    (p s : List (Line Pos)) (r : α) :
+    ∃ s1 out s2 out', collocateSpatial T shuf tn st p s r = (s1, .ok out) ∧
+      collocateSpatial T' shuf' tn' st' p s r = (s2, .ok out') ∧
+      (∀ x, x ∈ outPairs out ↔ x ∈ outPairs out') ∧ (out = none ↔ out' = none) := by
+  obtain ⟨s1, out, e1, _, m1, n1, _⟩ := collocateSpatial_spec dist hsym T hT shuf hshuf tn st hinv p s r
+  obtain ⟨s2, out', e2, _, m2, n2, _⟩ :=
+    collocateSpatial_spec dist hsym T' hT' shuf' hshuf' tn' st' hinv' p s r
+  refine ⟨s1, out, s2, out', e1, e2, ?_, by rw [n1, n2]⟩
+  rintro ⟨⟨i, j⟩, iv, d⟩
+  rw [m1, m2]
+
 end C04
 
 /-- **C04_grid_flatten** — stacking (scan line, scan position) row-major: the point at
@@ -253,6 +298,12 @@ private def exRun (tn : Tuning) (st : SState Rat) :=
 -- a two-run cut of its sorted times 2.5 s, 3 s | 7 s, 9.99 s
 #guard exRun { thr := 0, cut := [(1000000000, 2), (4000000000, 2)] } {} == some [((11, 20), 1), ((13, 22), 0)]
 
+-- spatial-only search: every pair within 1 km whatever the times (10–23 at 2 s, 10–20 at 2.5 s, 11–23 at 6 s included)
+#guard ((collocateSpatial (bruteTree (fun a b : Rat => |a - b|)) (fun _ pts => List.range pts.length) {} {} exP exS (1 : Rat)).2.toOption.map
+    (fun o => ((outPairs o).map (fun x => (x.1, x.2.1))).mergeSort
+      (fun a b => decide (a.1.1 < b.1.1 ∨ (a.1.1 = b.1.1 ∧ a.1.2 ≤ b.1.2))))) ==
+  some [((10, 20), 2), ((10, 23), 2), ((11, 20), 1), ((11, 23), 6), ((13, 22), 0)]
+
 assert_axioms C04_binning_complete_nodup C04_pairs_spec C04_swap_transpose C04_tuning_invariant
   C04_history_independent C04_interval_distance_values C04_grid_flatten collocated_swap ivOf_comm
-  ivOf_spec
+  ivOf_spec C04_spatial_only_spec C04_inv_preserved C04_spatial_state_independent
